@@ -25,7 +25,7 @@ def run(ctx):
         enc_lines, meta = [], []
         for n, t in m["types"]:
             feats = gfind.features(t, env)
-            if "named_unsigned_noconstraint" in feats: f48_skipped += 1; continue     # F48: validation recurses forever
+            if "selfloop_constraint" in feats: f48_skipped += 1; continue     # F48: validation recurses forever
             for v in vg.values(t, nvals):
                 sx = genmod.val_sexp(t, v, env)
                 for syn in c01.SYNTAXES:
@@ -45,12 +45,13 @@ def run(ctx):
             for d in mutate.truncations(data, cap=32 if ctx.quick else 400): add(n, syn, d, "trunc")
             for d in (mutate.all_bitflips(data, 6 if ctx.quick else 64)): add(n, syn, d, "flip")
             for d in mutate.surgery(data, ctx.rng, 8 if ctx.quick else 60): add(n, syn, d, "surgery")
+            for d in mutate.byte_sweep(data, 12 if ctx.quick else 64): add(n, syn, d, "sweep")
         # splices of two encodings and random bytes, against every type
         # admissible (type, syntax) pairs (e.g. no UPER/OER decoding of types containing SET: F32)
         pairs = []
         for n, t in m["types"]:
             feats = gfind.features(t, env)
-            if "named_unsigned_noconstraint" in feats: continue
+            if "selfloop_constraint" in feats: continue
             pairs += [(n, syn) for syn in c01.SYNTAXES if not c01.skip_region(syn, feats, collections.Counter())]
         for _ in range(40 if ctx.quick else 400):
             if len(corpus) >= 2 and pairs:
@@ -99,7 +100,7 @@ def run(ctx):
             if ctx.match_finding(lambda k: k["id"] == "F21"): continue
         if "UniversalString.c:100" in o and "left shift" in o:
             if ctx.match_finding(lambda k: k["id"] == "F50"): continue
-        if "OCTET_STRING.c:587" in o and "shift exponent" in o:
+        if "OCTET_STRING.c:587" in o and ("shift exponent" in o or "left shift" in o):
             if ctx.match_finding(lambda k: k["id"] == "F52"): continue
         if "OCTET_STRING.c:1224" in o and "shift exponent" in o:
             if ctx.match_finding(lambda k: k["id"] == "F71"): continue
